@@ -125,6 +125,15 @@ def resolve(op, uni, pool):
     kind = o["op"]
     if kind == "bin" and o["y"]["kind"] == "arr":
         o["y"] = dict(kind="arr", j=o["y"]["j"] % n)
+        if o["b"] == "pow":
+            # keep powers exact: exponents must be small non-negative integers, bases small integers
+            ev, bv = np.asarray(pool[o["y"]["j"]].values), np.asarray(a.values)
+            if not (np.all(np.isin(ev, [0, 1, 2, 3])) and np.all(np.abs(bv) <= 20) and np.all(bv == np.round(bv))):
+                o["b"] = "mul"
+    if kind == "bin" and o["y"]["kind"] == "num" and o["b"] == "pow":
+        bv = np.asarray(a.values)
+        if not (np.all(np.abs(bv) <= 20) and np.all(bv == np.round(bv))):
+            o["b"] = "mul"
     if kind in ("sum_to", "sum_over"):
         k = int(o["pick"] * (len(dims) + 1))
         rng = _random.Random(int(o["pick"] * 1e6))
@@ -273,6 +282,7 @@ def drive(uni, ops):
             if ok and r is not None:
                 pool.pop()
             break
+        cop["subdims"] = {l: d for l, d in uni.items() if not l.islower()}   # the subset dimensions as they were at this step
         steps.append(cop)
         obs.append(dict(ok=ok, exc=exc, before=before, after=after))
     return dict(uni=uni, steps=steps), obs
@@ -286,6 +296,7 @@ def cq_nd(shape, values):
 
 
 def cq_hop(uni, c):
+    uni = dict(uni, **c.get("subdims", {}))
     k = c["op"]
     if k == "new":
         return f"(HNew {cq_dimset([uni[l] for l in c['dims']])} {cq_nd(c['shape'], c['values'])})"
